@@ -1,6 +1,7 @@
 """C12 - one-edit neighbourhood generators and the set utilities on them are exact."""
 from .. import AnalysisBroken
 from ..cond import compare_trees
+from ..eff import check_pure_params
 from ..rf import RFContext
 from ..rules import Equiv, canon_binders, canon_params, check_equiv, compare_function, std_rewrites, where_of
 from ..terms import FALSE, NONE, TRUE, const, head, is_const, show, strip, strip_all, subst, walk
@@ -244,6 +245,8 @@ def run(r):
     rep = r.rep
     rep.explanation = "Every yield of the two generators was normalised to an edit term with its domains and guard; the set utilities and nested enumerations were compared loop-closed with the specification."
     rep.trust("DESIGN Appendix A.3: the canonical one-edit enumeration lists every string at distance exactly 1 once", "DESIGN Appendix A.4: breadth-first ball / nested substitution enumeration")
+    # purity first: cheap, robust, and a recorded violation takes precedence over a later 'cannot decide'
+    check_pure_params(r, "C12-PURE", [D + n for n in ("levenshtein_neighbors", "hamming_neighbors", "next_nearest_neighbors", "find_neighbor_pairs", "find_neighbor_pairs_index", "calculate_neighbor_numbers", "isdist1", "nndist_hamming")])
     check_generator(r, "C12-LEV", D + "levenshtein_neighbors", {
         "DEL": {"positions": "n", "positions_text": "0 .. len(x)-1"}, "SUB": {"positions": "n", "positions_text": "0 .. len(x)-1"}, "INS": {"positions": "n+1", "positions_text": "0 .. len(x)"}})
     check_generator(r, "C12-HAM", D + "hamming_neighbors", {"SUB": {"positions": "vp", "positions_text": "variable_positions, default range(len(x))"}})
@@ -259,7 +262,7 @@ def run(r):
                        ("_flatten_list", "concatenation of the sub-lists")):
         rule = "C12-ND" if "dist" in name and name != "isdist1" else "C12-NNN" if name in ("next_nearest_neighbors", "_flatten_list") else "C12-PAIRS"
         compare_function(r, rule, D + name, SPEC, f"{name}: {what}", eq=eq, key=name)
-    for rule, fl in (("C12-LEV", 14), ("C12-HAM", 5), ("C12-NNN", 2), ("C12-PAIRS", 4), ("C12-ND", 3)):
+    for rule, fl in (("C12-PURE", 18), ("C12-LEV", 14), ("C12-HAM", 5), ("C12-NNN", 2), ("C12-PAIRS", 4), ("C12-ND", 3)):
         rep.floor(rule, fl)
 
 
